@@ -1,4 +1,5 @@
 import BlobfinderModel.Proofs.Lattice
+import BlobfinderModel.Proofs.Noise
 /-!
 # C06 — lattice fits are the weighted least-squares optimum and affine-covariant
 
@@ -145,6 +146,47 @@ theorem weight_scale_invariant (l : List Obs) (k z al be : ℚ) (hk : k ≠ 0) :
 
 /-- non-vacuity: three points of an exact lattice -/
 example : solveNormal (normalOf [⟨0, 0, 1, 5⟩, ⟨1, 0, 2, 8⟩, ⟨0, 1, 1, 4⟩]) = some (5, 3, -1) := by
+  decide +kernel
+
+/-! ### conditioning: how noise in the positions moves the fitted lattice (exact arithmetic) -/
+
+/-- **Noise propagation.**  If every observed coordinate is within `ε` of the lattice `(z, α, β)`
+(`t = z + i α + j β + e`, `|e| ≤ ε`) and the weights are non-negative, then for every solution
+`(z', α', β')` of the normal equations the predicted coordinate of **any** node `(i, j)` deviates from
+the true one by `d` with `det N · d² ≤ vᵀ adj(N) v · ε² Σw`, `v = (1, i, j)`: `|d| ≤ ε sqrt(Σw · vᵀN⁻¹v)`.
+The bound is in terms of the indices and weights of the fitted peaks only. -/
+theorem noise_propagation (l : List Obs) (hw : ∀ o ∈ l, 0 ≤ o.w) (z al be eps : ℚ)
+    (hn : ∀ o ∈ l, |resid z al be o| ≤ eps) (z' al' be' : ℚ) (hN : NormalEqs z' al' be' l) (i j : ℚ) :
+    (normalOf l).det * ((z' + i * al' + j * be') - (z + i * al + j * be)) ^ 2
+      ≤ (normalOf l).adjq 1 i j * (eps ^ 2 * (normalOf l).s1) :=
+  fit_prediction_error l hw z al be eps hn z' al' be' hN i j
+
+/-- at a node that takes part in the fit: `w d² ≤ ε² Σw` (leverage ≤ 1), so with equal weights the
+fitted lattice passes within `ε sqrt(n)` of every fitted node and a peak that carries a fraction `f` of
+the total weight is reproduced within `ε / sqrt(f)` -/
+theorem fitted_node_error (l : List Obs) (hw : ∀ o ∈ l, 0 ≤ o.w) (z al be eps : ℚ)
+    (hn : ∀ o ∈ l, |resid z al be o| ≤ eps) (z' al' be' : ℚ) (hN : NormalEqs z' al' be' l)
+    (hd : (normalOf l).det ≠ 0) (o : Obs) (ho : o ∈ l) :
+    o.w * ((z' + o.i * al' + o.j * be') - (z + o.i * al + o.j * be)) ^ 2 ≤ eps ^ 2 * (normalOf l).s1 :=
+  fit_error_at_observation l hw z al be eps hn z' al' be' hN hd o ho
+
+/-- adding peaks (non-negative weights) never lowers the rank of the design -/
+theorem rank_monotone {l l' : List Obs} (h : l.Sublist l') (hw : ∀ p ∈ l', 0 ≤ p.w) :
+    (normalOf l).det ≤ (normalOf l').det := det_mono_sublist h hw
+
+/-- exact data are recovered exactly -/
+theorem exact_recovery (l : List Obs) (z al be : ℚ) (hres : ∀ o ∈ l, resid z al be o = 0)
+    (hd : (normalOf l).det ≠ 0) : solveNormal (normalOf l) = some (z, al, be) := solve_exact l z al be hres hd
+
+/-- non-vacuity of the noise bound: four nodes (weights 1, 2, 1, 1), noise +1/10, -1/10, +1/10, 0 on the
+lattice (5, 3, -1); the fit is (71/14, 199/70, -33/35), which misses the far node (4, -3) by 51/70; the
+bound `det · d² = 2601/700 ≤ 117/20 = vᵀ adj(N) v · ε² Σw` holds with ε = 1/10 -/
+example :
+    let l : List Obs := [⟨0, 0, 1, 5 + 1 / 10⟩, ⟨1, 0, 2, 8 - 1 / 10⟩, ⟨0, 1, 1, 4 + 1 / 10⟩, ⟨1, 1, 1, 7⟩]
+    (∀ o ∈ l, 0 ≤ o.w) ∧ (∀ o ∈ l, |resid 5 3 (-1) o| ≤ 1 / 10) ∧ (normalOf l).det = 7 ∧
+      solveNormal (normalOf l) = some (71 / 14, 199 / 70, -33 / 35) ∧
+      (normalOf l).det * ((71 / 14 + 4 * (199 / 70) + (-3) * (-33 / 35)) - (5 + 4 * 3 + (-3) * (-1))) ^ 2 = 2601 / 700 ∧
+      (normalOf l).adjq 1 4 (-3) * ((1 / 10) ^ 2 * (normalOf l).s1) = 117 / 20 := by
   decide +kernel
 
 end C06
